@@ -50,7 +50,19 @@ func nameGen() *rapid.Generator[string] {
 }
 
 func caseGen() *rapid.Generator[Case] {
-	dg := gen.DecoGen()
+	full := gen.DecoGen()
+	// now and then an application registers a half-made decoration: only template fields, never populated
+	dg := rapid.Custom(func(t *rapid.T) gen.DecoSpec {
+		if gen.Rarely(t, "raw-deco", 8) {
+			fields := rapid.SliceOfNDistinct(rapid.SampledFrom([]string{"Horizontal", "Vertical", "TopDown", "VBorder", "CrossPiece", "HRule"}), 1, 3, rapid.ID[string]).Draw(t, "raw-fields")
+			m := map[string]string{}
+			for i, f := range fields {
+				m[f] = gen.Glyphs[i]
+			}
+			return gen.DecoSpec{Custom: m, Raw: true}
+		}
+		return full.Draw(t, "full-deco")
+	})
 	return rapid.Custom(func(t *rapid.T) Case {
 		c := Case{Names: rapid.SliceOfN(nameGen(), 1, 6).Draw(t, "names")}
 		if rapid.IntRange(0, 2).Draw(t, "family?") == 0 {
